@@ -14,7 +14,7 @@ class C07(Prop):
     ID = "C07"
     RULE = ("C06 operation programs extended with parse (valid and malformed), all print variants, compare, minify, duplicate, reference "
             "nodes to strings/arrays/objects, constant keys kept in read-only guarded memory, items moved between containers and key "
-            "arguments that alias the item's / the replacement's / the matched member's own key; executed under custom hooks (ledger) "
+            "arguments that alias the item's / the replacement's / the matched member's / the referenced item's own key; cJSON_Utils calls on copies of the documents (document-derived patches, case-flipped moves of a value into itself) and on documents holding references (members replaced, removed, copied, moved); executed under custom hooks (ledger) "
             "and under the default allocator (observed through link-time --wrap); obligatory final deletion of every root. Oracle: ledger "
             "empty at the end, no foreign/double/cross free, no sanitizer report, borrowed arena untouched (read-only pages; a free of it "
             "is a foreign free), and after every step (including deletions of reference nodes) every live tree still equals the model. "
